@@ -142,28 +142,32 @@ def bscSeal (c : Bsc) (sig : SigRes) : Out Unit :=
     if c.extraLen < 97 then .panic "bsc.ParseValidators: extra[32:len-65]" else
     if (c.extraLen - 97) % 20 ≠ 0 then .err "validator-bytes" else .ok ()
 
-/-- bsc `ClientState.Initialize`: `Height % Epoch` first. -/
-def bscInit (c : Bsc) (sig : SigRes) : Out Unit :=
+/-- bsc `ClientState.Initialize`: checked type assertion on the consensus state (fix 67b55c5), then `Height % Epoch`. -/
+def bscInit (c : Bsc) (cons : CT) (sig : SigRes) : Out Unit :=
+  if cons ≠ .bsc then .err "consensus-type" else
   if c.epoch = 0 then .panic "bsc.Initialize: % Epoch" else
   if c.height % c.epoch ≠ 0 then .err "genesis-block" else
   bscSeal c sig
 
-/-- bsc `ClientState.UpgradeState`: `% Epoch`, prune (first consensus state unreadable ⇒ error),
+/-- bsc `ClientState.UpgradeState`: consensus type check, `% Epoch`, prune (first consensus state unreadable ⇒ error),
 `DeleteAllSigner` (height parse error), then as `Initialize`. -/
-def bscUpgrade (c : Bsc) (sig : SigRes) (pruneErr signerErr : Bool) : Out Unit :=
+def bscUpgrade (c : Bsc) (cons : CT) (sig : SigRes) (pruneErr signerErr : Bool) : Out Unit :=
+  if cons ≠ .bsc then .err "consensus-type" else
   if c.epoch = 0 then .panic "bsc.UpgradeState: % Epoch" else
   if c.height % c.epoch ≠ 0 then .err "genesis-block" else
   if pruneErr then .err "prune" else
   if signerErr then .err "signers" else
   bscSeal c sig
 
-/-- eth `Initialize` and `UpgradeState` (identical): `MarshalInterface`, then `header.Hash()` →
-`ToEthHeader` → `BytesToBloom`. -/
-def ethInit (c : Eth) (marshalErr : Bool) : Out Unit :=
+/-- eth `Initialize` and `UpgradeState` (identical): checked type assertion on the consensus state (fix 67b55c5),
+`MarshalInterface`, then `header.Hash()` → `ToEthHeader` → `BytesToBloom`. -/
+def ethInit (c : Eth) (cons : CT) (marshalErr : Bool) : Out Unit :=
+  if cons ≠ .eth then .err "consensus-type" else
   if marshalErr then .err "marshal" else
   if c.bloomLen > 256 then .panic "eth.BytesToBloom" else .ok ()
 
-/-- tendermint `Initialize`: checked type assertion on the consensus state. -/
+/-- tendermint `Initialize` and (fix 0fd3c3d) `UpgradeState`: checked type assertion on the consensus state,
+then `setConsensusMetadata` (total). -/
 def tmInit (cons : CT) : Out Unit := if cons = .tm then .ok () else .err "consensus-type"
 
 structure Env where
@@ -176,15 +180,15 @@ structure Env where
 def csInit (c : CS) (cons : CT) (e : Env) : Out Unit :=
   match c with
   | .tm _ => tmInit cons
-  | .bsc b => bscInit b e.sig
-  | .eth x => ethInit x e.marshalErr
+  | .bsc b => bscInit b cons e.sig
+  | .eth x => ethInit x cons e.marshalErr
   | .tss _ => .ok ()
 
-def csUpgrade (c : CS) (e : Env) : Out Unit :=
+def csUpgrade (c : CS) (cons : CT) (e : Env) : Out Unit :=
   match c with
-  | .tm _ => .ok ()
-  | .bsc b => bscUpgrade b e.sig e.pruneErr e.signerErr
-  | .eth x => ethInit x e.marshalErr
+  | .tm _ => tmInit cons
+  | .bsc b => bscUpgrade b cons e.sig e.pruneErr e.signerErr
+  | .eth x => ethInit x cons e.marshalErr
   | .tss _ => .ok ()
 
 /-! ## xibc client keeper and proposal handlers -/
@@ -234,16 +238,17 @@ def handleCreate (e : Env) (s : XSt) (p : ClientProp) : Out XSt :=
 /-- `handleUpgradeClientProposal` → `HandleUpgradeClient` → `Keeper.UpgradeClient`. -/
 def handleUpgrade (e : Env) (s : XSt) (p : ClientProp) : Out XSt := do
   let c ← unpack p.cs
-  let _ ← unpack p.cons
+  let cons ← unpack p.cons
   match s.get p.chain with
   | none => .err "client-not-found"
   | some old =>
     if old.ct ≠ c.ct then .err "client-type" else do
-    csUpgrade c e
+    csUpgrade c cons e
     pure (s.set p.chain c)
 
-/-- `handleToggleClientProposal` → `HandleToggleClient` → `Keeper.ToggleClient`
-(which calls `Initialize` of the OLD client state — F10, owned by C18 — so the stored state matters). -/
+/-- `handleToggleClientProposal` → `HandleToggleClient` → `Keeper.ToggleClient`: since fixes e081e86 / 0be1a17 it clears the
+replaced client's store (`clearClientStore`: iterate + delete, total) and calls `Initialize` of the NEW client state;
+of the stored client only its type is looked at. -/
 def handleToggle (e : Env) (s : XSt) (p : ClientProp) : Out XSt :=
   match s.get p.chain with
   | none => .err "client-not-found"
@@ -251,7 +256,7 @@ def handleToggle (e : Env) (s : XSt) (p : ClientProp) : Out XSt :=
     let c ← unpack p.cs
     let cons ← unpack p.cons
     if old.ct = c.ct then .err "client-type" else do
-    csInit old cons e
+    csInit c cons e
     pure (s.set p.chain c)
 
 structure RelayerProp where
